@@ -909,17 +909,26 @@ class NonMementoFunctionHashRule(HashRule):
         if self in result:
             # Same entity referenced under another symbol: keep this rule with the one already
             # collected so that re-binding either symbol is noticed (see did_change)
+            seen_before = True
             for rule in result:
                 if rule == self and rule is not self:
+                    seen_before = any(
+                        r.src_fn is self.src_fn for r in [rule] + rule.alternates
+                    )
                     rule.alternates.append(self)
-            return
+            if seen_before:
+                return
+            # Otherwise this is another function of the same qualified name (a name still
+            # refers to a definition that was replaced since): it is hashed with the rule
+            # already collected (see compute_hash) and its own dependencies count as well
 
         # Only add this function and descend if it is within the package scope.
         if inspect.getmodule(self.src_fn).__package__ not in package_scope:
             return
 
         # Add self
-        result.add(self)
+        if self not in result:
+            result.add(self)
 
         # Add transitive dependencies:
         src_fn = self.src_fn
@@ -941,7 +950,14 @@ class NonMementoFunctionHashRule(HashRule):
             )
 
     def compute_hash(self) -> Optional[str]:
-        return fn_code_hash(self.src_fn)
+        own_hash = fn_code_hash(self.src_fn)
+        rules = [self] + [r for r in self.alternates if r.src_fn is not self.src_fn]
+        if len(rules) == 1:
+            return own_hash
+        # Several functions share this rule's qualified name: all of them count, each with
+        # the symbol it is reached by, in an order that does not depend on which was met first
+        parts = sorted({r.symbol + "=" + fn_code_hash(r.src_fn) for r in rules})
+        return hashlib.sha256(";".join(parts).encode("utf-8")).hexdigest()[0:16]
 
     def did_change(self) -> bool:
         """
